@@ -123,6 +123,8 @@ func matchBracket(s string, i int) int {
 type verifyOpts struct {
 	knownActive map[string]bool // known-finding ids listed in KNOWN_FINDINGS
 	canaryFor   string          // run as the canary for this known id (assume its class)
+	split       *int            // value of the contract's split variable in this run
+	splitCheck  bool            // the run that proves the split exhaustive
 }
 
 // VerifyFunc generates all obligations of one function under contract.
@@ -135,6 +137,9 @@ func VerifyFunc(P *Program, fn *ssa.Function, c *Contract, cf *ContractFile, ins
 	name := pkgShort(c.Pkg) + "." + c.Key
 	if inst != "" {
 		name += "[" + inst + "]"
+	}
+	if vo.split != nil {
+		name += fmt.Sprintf("[%s=%d]", c.SplitVar, *vo.split)
 	}
 	e.fname = name
 	fr := &FuncResult{Pkg: c.Pkg, Key: c.Key, Inst: inst, Name: name, Mode: e.mode, File: P.pos(fn.Pos()), Trusted: c.Trusted, TrustedWhy: c.TrustedWhy}
@@ -154,6 +159,12 @@ func VerifyFunc(P *Program, fn *ssa.Function, c *Contract, cf *ContractFile, ins
 	var args []Val
 	for _, p := range fn.Params {
 		v := e.havocVal(p.Type(), "p."+p.Name(), st)
+		if vo.split != nil && p.Name() == c.SplitVar {
+			// this run covers one value of the split parameter: use the literal (shifts, divisions by it become linear)
+			if b, ok := isInt(p.Type()); ok {
+				v = Val{T: p.Type(), S: e.intLit(b, fmt.Sprint(*vo.split))}
+			}
+		}
 		args = append(args, v)
 		e.inputs = append(e.inputs, e.inputSyms(p.Name(), p.Type(), v.S)...)
 		f.vals[p] = v
@@ -246,6 +257,19 @@ func VerifyFunc(P *Program, fn *ssa.Function, c *Contract, cf *ContractFile, ins
 			continue
 		}
 		e.assume("true", g)
+	}
+	if vo.splitCheck {
+		// the one run with a symbolic split parameter: the precondition confines it to the split range, so the runs
+		// with one literal value each cover every admissible call
+		if x, err := parseExpr(fmt.Sprintf("%d <= %s && %s <= %d", c.SplitLo, c.SplitVar, c.SplitVar, c.SplitHi)); err == nil {
+			if g, err := e.evalBool(entryCtx, x); err == nil {
+				e.obNamed(name+".split.exhaustive", "split", fmt.Sprintf("the precondition confines %s to %d..%d (the case split is complete)", c.SplitVar, c.SplitLo, c.SplitHi), "true", g, fn.Pos())
+			} else {
+				e.bindError(name+".split", err)
+			}
+		}
+		fr.Obls = e.obls
+		return fr
 	}
 	// ghost@entry : var = expr  (ghost variables local to this verification: initialised at entry)
 	for i := range c.Sites {
